@@ -677,7 +677,7 @@ func (b *Builder) callback(pt reflect.Type, cb *Callback, c *Call, post *[]func(
 				late := cb.Returned
 				cb.hit()
 				if late {
-					return "ZZLATE"
+					return fmt.Sprintf("ZZLATE%d", cb.Runs) // (another value every time: generator state moves on)
 				}
 				return c.Val.Go()
 			})
